@@ -458,17 +458,98 @@ def path_cases_links():
     return out
 
 
+# what the entry <location>/<name>.yaml can be besides absent / a regular file. A location "has" the pipeline only when
+# the entry is a regular file once symlinks are followed; everything else is passed over like an absent entry.
+NONFILE_KINDS = ['dir', 'linkDir', 'dangling', 'fifo']
+ENTRY_KINDS = ['file', 'linkFile'] + NONFILE_KINDS
+
+
+def kind_layout(entries, fifo_ok=True):
+    """entries [[rel path, kind]] -> the concrete layout: real files, symlinks, directories, fifos"""
+    lay = {'files': [], 'links': [], 'mkdirs': [], 'fifos': []}
+    for n, (loc, k) in enumerate(entries):
+        if k == 'file':
+            lay['files'].append(loc)
+        elif k == 'dir':
+            lay['mkdirs'].append(loc)
+        elif k == 'linkFile':
+            lay['files'].append(f'kt/real{n}.yaml')
+            lay['links'].append([loc, f'kt/real{n}.yaml'])
+        elif k == 'linkDir':
+            lay['mkdirs'].append(f'kt/adir{n}')
+            lay['links'].append([loc, f'kt/adir{n}'])
+        elif k == 'dangling':
+            lay['links'].append([loc, f'kt/gone{n}'])
+        elif k == 'fifo':
+            assert fifo_ok
+            lay['fifos'].append(loc)
+        elif k != 'absent':
+            raise ValueError(k)
+    return lay
+
+
+def kind_path_case(name, parent, entries, form='str'):
+    return {'kind': 'paths', 'name': name, 'parent': parent, 'parent_form': form, 'entries': [list(e) for e in entries],
+            **kind_layout(entries)}
+
+
+def kind_locs(name, parent):
+    if name.startswith('/'):
+        return [name[3:] + '.yaml']
+    return [f'{d}/{name}.yaml' for d in ([parent[3:]] if parent and parent != CWD else []) + ['w', 'w/pipelines']]
+
+
+def path_cases_kinds(rng, n_random):
+    """every kind of non-file entry (and a symlink to a file) at each search location, with a real file at a later location
+    and with no file anywhere; root look-ups (no parent) and what a pype child's look-up is (parent = the caller's directory);
+    plain and nested names; the built-in name (the built-ins directory always holds the file); absolute names."""
+    out = []
+    for name in ('vp', 'sub/vp', 'donothing'):
+        for parent in (None, '/R/e', '/R/e/sub'):
+            locs = kind_locs(name, parent)
+            for i, at in enumerate(locs):
+                for k in ['linkFile'] + NONFILE_KINDS:
+                    for later in list(locs[i + 1:]) + [None]:
+                        out.append(kind_path_case(name, parent, [[at, k]] + ([[later, 'file']] if later else []),
+                                                  form='path' if parent and (i + len(k)) % 2 else 'str'))
+            # every earlier location holds a non-file, the last one the file
+            for k in NONFILE_KINDS:
+                out.append(kind_path_case(name, parent, [[l, k] for l in locs[:-1]] + [[locs[-1], 'file']]))
+                out.append(kind_path_case(name, parent, [[l, k] for l in locs]))
+    for name in ('/R/e/vp', '/R/e/sub/vp'):
+        for k in ['linkFile'] + NONFILE_KINDS:
+            for parent in (None, '/R/e2'):
+                out.append(kind_path_case(name, parent, [[kind_locs(name, None)[0], k]]))
+                out.append(kind_path_case(name, parent, [[kind_locs(name, None)[0], k], [f'w/{stem_of(name)}.yaml', 'file'],
+                                                         [f'e2/{stem_of(name)}.yaml', 'file']]))
+    for _ in range(n_random):
+        name = rng.choice(['vp', 'vp', 'sub/vp', 'a/b/vp', 'donothing', '/R/e/vp'])
+        parent = rng.choice([None, '/R/e', '/R/e/sub', '/R/e2', '/R/w', '/R/missing'])
+        locs = kind_locs(name, parent if parent != '/R/missing' else None)
+        if parent == '/R/missing':
+            locs = [f'missing/{name}.yaml'][:0] + locs
+        entries = []
+        for l in locs + ([f'w/{stem_of(name)}.yaml'] if name.startswith('/') else []):
+            k = rng.choice(['absent', 'absent', 'file'] + ENTRY_KINDS)
+            if k != 'absent':
+                entries.append([l, k])
+        out.append(kind_path_case(name, parent, entries, form=rng.choice(['str', 'path']) if parent else 'str'))
+    return out
+
+
 def run_path_chunk(chunk, repo):
     root = Path(tempfile.mkdtemp(prefix='c19p')).resolve()
     try:
         for d in ('w/pipelines', 'e/sub', 'e2', 'lib', 't/sub'):
             (root / d).mkdir(parents=True)
+        (root / 'kt').mkdir()
         for c in chunk:       # every directory any case of the chunk needs exists from the start: one directory set
-            for f in c['files']:
+            for f in c['files'] + [e[0] for e in c.get('entries', [])]:
                 (root / f).parent.mkdir(parents=True, exist_ok=True)
         sc = {'kind': 'paths', 'root': str(root),
               'cases': [{'files': c['files'], 'name': conc(root, c['name']), 'parent': conc(root, c['parent']),
-                         'parent_form': c['parent_form'], 'links': c.get('links', []), 'chdir': c.get('chdir')} for c in chunk]}
+                         'parent_form': c['parent_form'], 'links': c.get('links', []), 'chdir': c.get('chdir'),
+                         'mkdirs': c.get('mkdirs', []), 'fifos': c.get('fifos', [])} for c in chunk]}
         out = run_subprocess(root, sc, repo)
         if out.get('timeout'):
             # some case of the chunk hangs: run them one by one, the hanging ones become observations
@@ -485,7 +566,8 @@ def run_path_chunk(chunk, repo):
         res = []
         for c, r in zip(chunk, out['results']):
             files = sorted({'/R/' + f for f in c['files']} | {f'/B/{n}.yaml' for n in BUILTIN_NAMES})
-            dirs = sorted(set(base_dirs) | {('/R/' + f).rsplit('/', 1)[0] for f in c['files']})
+            dirs = sorted(set(base_dirs) | {('/R/' + f).rsplit('/', 1)[0] for f in c['files']} |
+                          {'/R/' + d for d in c.get('mkdirs', [])})
             impl = {'ok': canon(r['ok'])} if 'ok' in r else {'err': r['err'], 'msg': canon(r['msg'])}
             res.append((c, files, dirs, impl))
         if canon(out['config_cwd']) != CWD:
@@ -505,6 +587,8 @@ def judge_path_case(env, res, c, files, dirs, impl):
         res.count('paths:with-symlinks')
     if '..' in c['name'] or (c['parent'] and '..' in c['parent']):
         res.count('paths:with-dotdot')
+    for _, k in c.get('entries', []):
+        res.count('paths:entry-kind:' + k)
     os_cwd = '/R/' + c['chdir'] if c.get('chdir') else CWD
     if c['parent'] and not c['parent'].startswith('/'):
         res.count('paths:relative-parent' + ('-after-chdir' if c.get('chdir') else ''))
@@ -514,6 +598,9 @@ def judge_path_case(env, res, c, files, dirs, impl):
     parent_abs = c['parent'] if not c['parent'] or c['parent'].startswith('/') else f'{os_cwd}/{c["parent"]}'
     want, searched = spec_resolve(c['name'], parent_abs, files, dirs, dict(links))
     sig = {'clause': 'resolve_first_existing', 'form': 'abs' if c['name'].startswith('/') else 'rel'}
+    if any(k not in ('file', 'absent') for _, k in c.get('entries', [])):
+        # which kinds of entry (not a regular file) sit at the candidate locations of this case
+        sig['entries'] = sorted({k for _, k in c['entries'] if k not in ('file', 'absent')})
     if 'ok' in want:
         if impl.get('ok') != want['ok']:
             res.violation(c, f'{c["name"]} (parent {c["parent"]}) must resolve to {want["ok"]}, got {impl}',
@@ -529,6 +616,13 @@ def judge_path_case(env, res, c, files, dirs, impl):
     m = {'ok': model['ok']} if 'ok' in model else {'err': 'PipelineNotFoundError', 'msg': model['err']}
     if m != impl:
         res.mismatch(c, m, impl)
+    if 'entries' in c:
+        # the model over the KIND MAP (Resolve.getPipelinePathK): location -> what the entry there is
+        mk = env.driver.ask('resolve.kinds', name=c['name'], parent=c['parent'], cwd=CWD, builtin='/B', dirs=dirs, links=links,
+                            kinds=[['/R/' + l, k] for l, k in c['entries']] + [[f'/B/{n}.yaml', 'file'] for n in BUILTIN_NAMES])
+        mk = {'ok': mk['ok']} if 'ok' in mk else {'err': 'PipelineNotFoundError', 'msg': mk['err']}
+        if mk != impl:
+            res.mismatch(c, mk, impl, 'kind-map model (getPipelinePathK)')
 
 
 # ---------------------------------------------------------------------------------------------
@@ -713,6 +807,35 @@ def symlink_cases():
     return out
 
 
+def kind_run_cases():
+    """pipelinerunner.run end to end over entry kinds: a root pipeline / a pype child whose <name>.yaml at an EARLIER search
+    location is a directory, a symlink to a directory, a dangling symlink or a symlink to a file - with the real file at a
+    later location and with no file anywhere (fifos only through get_pipeline_path: nothing opens them there)."""
+    out = []
+
+    def add(hops, entries, files=()):
+        lay = kind_layout(entries, fifo_ok=False)
+        out.append({'kind': 'run', 'tag': 'entry-kinds', 'rootLoader': None, 'hops': hops, 'files': list(files) + lay['files'],
+                    'links': lay['links'], 'mkdirs': ['kt', 'e/sub'] + lay['mkdirs'], 'entries': [list(e) for e in entries]})
+    kinds = ['dir', 'linkDir', 'dangling', 'linkFile']
+    for name in ('vp1', 'sub/vp1'):
+        locs = [f'{d}/{name}.yaml' for d in ('e', 'w', 'w/pipelines')]
+        for i, at in enumerate(locs):
+            for k in kinds:
+                for later in locs[i + 1:] + [None]:
+                    add([hop('/R/e/vp0'), hop(name)], [[at, k]] + ([[later, 'file']] if later else []), files=['e/vp0.yaml'])
+    for name in ('vp0', 'sub/vp0'):
+        locs = [f'{d}/{name}.yaml' for d in ('w', 'w/pipelines')]
+        for i, at in enumerate(locs):
+            for k in kinds:
+                for later in locs[i + 1:] + [None]:
+                    add([hop(name)], [[at, k]] + ([[later, 'file']] if later else []))
+    for k in kinds[:3]:
+        add([hop('donothing')], [['w/donothing.yaml', k], ['w/pipelines/donothing.yaml', k]])
+        add([hop('/R/e/vp0')], [['e/vp0.yaml', k], ['w/vp0.yaml', 'file']])
+    return out
+
+
 def pydir_cases():
     """`py_dir` (pipelinerunner.run(py_dir=), the CLI's --dir which defaults to the cwd; pype's pyDir)"""
     out = []
@@ -810,6 +933,8 @@ def judge_run_case(env, res, case, files, dirs, mods, impl):
         res.count('run:several-roots-one-process')
     if links:
         res.count('run:with-symlinks')
+    for _, k in case.get('entries', []):
+        res.count('run:entry-kind:' + k)
     if case.get('shared'):
         res.count('run:same-module-name-in-several-dirs')
     for r in runs:
@@ -1846,11 +1971,17 @@ def run(env, res):
                      'the command line no longer hands the cwd to py_dir by default')
     res.rule = ('paths: every subset of the candidate locations (parent dir, cwd, cwd/pipelines; built-in via the name '
                 'donothing) x 5 name forms x 7 parents x Path/str, through get_pipeline_path; + symlinked directories / files, `..` in '
-                'names and parents, relative parents before and after os.chdir. run: all depth-0 layouts, '
+                'names and parents, relative parents before and after os.chdir; + KINDS of entry at every search location (absent, regular '
+                'file, directory, symlink to a file / to a directory, dangling symlink, fifo): each kind at each location with a real file '
+                'at each later location or nowhere, all earlier locations non-files, absolute names, plain / nested / built-in names, '
+                'no parent / a caller directory, random kind assignments per location; also against the kind-map model. '
+                'run: all depth-0 layouts, '
                 'depth-1 = 5 root placements x 4 child name forms x 13 pype option sets x every subset of the child\'s '
                 'candidate locations (thorough: all; quick: seeded slice), depth-2 random chains incl. custom loaders, directed and random '
                 'chains of 3-6 hops (name forms incl. ../x, steering keys, pyDir), symlinked pipeline files / directories / cwd entries, '
-                'py_dir (none, cwd, other, missing; str / Path; on children), the same step-module name in several directories '
+                'py_dir (none, cwd, other, missing; str / Path; on children), entry kinds (a directory / a link to a directory / a '
+                'dangling link / a link to a file called <name>.yaml at an earlier search location of a root pipeline or a pype child, '
+                'real file later or nowhere), the same step-module name in several directories '
                 '(two roots in one process, child elsewhere than its caller, py_dir = cwd, interpreter sys.path entry). '
                 'seq: SEQUENCES of 2-10 look-ups in ONE process with warm caches (name forms plain, dir/name, absolute, '
                 'with +, with ..; parents none, dir, dir/sub, cwd; through new and re-used Pipeline objects, Pipeline.run, '
@@ -1866,7 +1997,7 @@ def run(env, res):
                 'seeded slice) + random names over an alphabet with . space - _ digits non-ascii. '
                 'every case in a fresh subprocess with its own cwd. non-trivial = distinct (hops, options, layout)')
     workers = min(14, os.cpu_count() or 2)
-    pcs = path_cases()
+    pcs = path_cases() + path_cases_kinds(env.rng, env.n(200, 2000))
     chunks = [pcs[i::workers] for i in range(workers)]
     runs = depth0_cases()
     d1 = depth1_cases()
@@ -1875,7 +2006,7 @@ def run(env, res):
         d1 = [c for c in d1 if not c['hops'][1]['pype']] + env.rng.sample([c for c in d1 if c['hops'][1]['pype']], 350)
     runs += d1
     runs += [random_depth2(env.rng) for _ in range(env.n(200, 2500))]
-    runs += directed_deep() + symlink_cases() + pydir_cases() + shared_cases()
+    runs += directed_deep() + symlink_cases() + pydir_cases() + shared_cases() + kind_run_cases()
     runs += [random_deep(env.rng) for _ in range(env.n(80, 600))]
     seqs = seq_cases_directed(env.rng, env.quick)
     seqs += seq_cases_pairs(env.rng, env.n(3, 2), env.n(120, None))
